@@ -10,6 +10,7 @@ import (
 
 	"pgregory.net/rapid"
 
+	"gitlab.com/yawning/secp256k1-voi/verifharness/gen"
 	"gitlab.com/yawning/secp256k1-voi/verifharness/opclient"
 	"gitlab.com/yawning/secp256k1-voi/verifharness/opgen"
 	"gitlab.com/yawning/secp256k1-voi/verifharness/ref"
@@ -89,7 +90,7 @@ var crossOps = append(append([]string{}, opgen.SecretOps...), opgen.PublicOps...
 
 func propCross(t *rapid.T) {
 	a, p := servers(t)
-	op := rapid.SampledFrom(crossOps).Draw(t, "op")
+	op := gen.Sampled(crossOps).Draw(t, "op")
 	req := opgen.Draw(t, op, "r")
 	line := opclient.Line(req.Op, req.Args...)
 	edge := false
